@@ -15,6 +15,7 @@ pub mod h_count;
 pub mod h_trace;
 pub mod h_layout;
 pub mod h_tls;
+pub mod h_fmt;
 #[cfg(feature = "cleaners")]
 pub mod h_clean;
 #[cfg(feature = "auto-collect")]
